@@ -58,8 +58,10 @@ def c_ab(a, h):
     if k == "periodic": return "(Periodic %d)" % a[1]
     if k == "sporadic": return "(Sporadic %d %d)" % (a[1], a[2])
     if k == "never": return "Never"
-    if k == "curve": return "(CurveAB %s)" % c_curve(a[1], h)
-    if k == "extrap": return "(ExtrapAB %s)" % c_curve(a[1], h)
+    # a delta-min vector whose last entry is 0 makes number_arrivals divide by zero (and steps_iter index an
+    # empty vector): the arrival bound is unusable -> the model reports a panic
+    if k == "curve": return "(CurveAB %s)" % h.add("(usable_curve %s)" % c_curve(a[1], h))
+    if k == "extrap": return "(ExtrapAB %s)" % h.add("(usable_curve %s)" % c_curve(a[1], h))
     if k == "prefix":
         p = c_prefix(a[1], h)
         return "(PrefixAB (fst %s) (snd %s))" % (p, p)
